@@ -15,7 +15,7 @@ ASSUMPTIONS = ["control inputs restricted to the 12 defined K symbols (K28.0-7, 
                "no external code table is trusted: properties are intrinsic (round trip, ones count, run length, comma windows)",
                "symbols that were in the pipeline registers of the arbitrary start state are not judged; every symbol entered after frame 0 is"]
 BOUNDS = {"quick": "arbitrary start state, K=8 frames (every window of 3 consecutive symbols, nwords 1,2, msb/lsb first); stream wrappers BMC K=12",
-          "thorough": "arbitrary start state, K=9 frames, nwords 1..4, msb/lsb first; stream wrappers BMC K=16, nwords 1,2"}
+          "thorough": "arbitrary start state, K=9 frames, nwords 1..4, msb/lsb first; stream wrappers BMC K=16 (nwords 1) and K=12 (nwords 2)"}
 OUTSIDE = "windows longer than three symbols for run-length/comma (a 7-bit window spans at most two symbols, a 6-bit run at most two)"
 FUNCS = ["litex.soc.cores.code_8b10b.SingleEncoder", "litex.soc.cores.code_8b10b.Encoder", "litex.soc.cores.code_8b10b.Decoder",
          "litex.soc.cores.code_8b10b.StreamEncoder", "litex.soc.cores.code_8b10b.StreamDecoder",
@@ -199,7 +199,7 @@ def jobs(tier):
         for n in (1, 2, 3, 4):
             for lsb in (False, True):
                 js.append(Job("code_n%d_%s" % (n, "lsb" if lsb else "msb"), build_code, dict(nwords=n, lsb_first=lsb, K=9), cost=n * 10))
-        js += [Job("stream_n%d" % n, build_stream, dict(nwords=n, K=16), cost=20) for n in (1, 2)]
+        js += [Job("stream_n1", build_stream, dict(nwords=1, K=16), cost=30), Job("stream_n2", build_stream, dict(nwords=2, K=12), cost=30)]
     else:
         for n in (1, 2):
             for lsb in (False, True):
